@@ -67,6 +67,15 @@ private def fui (name : String) : Option (St → Nat → Nat → Nat → St) :=
   | _ => none
 
 def handle : Handler
+  | "as4_sqrtrem", [.num m, .num qa, .num qv, .num ra, .num rv, .num ua, .num uv] => do
+      let q ← mk? qa qv; let r ← mk? ra rv; let u ← mk? ua uv
+      let s : St := ⟨fun i => if i = 0 then q else if i = 1 then r else u, true⟩
+      -- ids: root = 0, rem = 1, op = 2; mode 0 distinct, 1 root is op, 2 rem is op
+      let ids : Option (Nat × Nat) := match m with | 0 => some (0, 1) | 1 => some (2, 1) | 2 => some (0, 2) | _ => none
+      let (Q, R) ← ids
+      match mpz_sqrtrem s Q R 2 with
+      | none => some [.err "sqrtneg"]
+      | some s' => if !s'.ok then some [.err "oob"] else some (outW s' Q ++ outW s' R)
   | "as4_mpf_urandomb", [.num seed, .num precBits, .num nbits] =>
       if !(0 ≤ seed && seed < 2 ^ 64 && 0 ≤ precBits && precBits < 2 ^ 20 && 0 ≤ nbits && nbits < 2 ^ 20) then none else
       let g := (Rand.Gen.mt Rand.mtDefault).seedUi seed.toNat
